@@ -21,6 +21,7 @@
 (*     | [op |-> "probe", n, obs : [kind, chain], fresh : [kind, chain],   *)
 (*        fresh_eff : Seq(<<sid, rank, m>>)]                                *)
 (*     | [op |-> "rprobe", n, via, marker]                                  *)
+(*     | [op |-> "rprobe2", n, via, rec, direct]  chain walked by a recursion vs a direct call *)
 (***************************************************************************)
 EXTENDS Naturals, Integers, Sequences, FiniteSets, TLC, Json, IOUtils
 
@@ -89,6 +90,11 @@ Consume ==
        [] st.op = "rprobe" ->
             /\ used' = used \cup {st.n}
             /\ bad' = Add(IF st.marker # st.n THEN "C08:reenters_dispatcher." \o st.via ELSE "", st)
+            /\ UNCHANGED <<mix, lb, own, lastmod>>
+       [] st.op = "rprobe2" ->
+            \* recurse(args) = calling, with those args, the function the current call came through
+            /\ used' = used \cup {st.n}
+            /\ bad' = Add(IF st.rec # st.direct THEN "C08:reenters_dispatcher.same_as_direct." \o st.via ELSE "", st)
             /\ UNCHANGED <<mix, lb, own, lastmod>>
        [] OTHER -> UNCHANGED <<mix, lb, own, used, lastmod>> /\ bad' = bad
   /\ l' = l + 1
